@@ -110,6 +110,7 @@ var jobTable = map[string]jobSet{
 			{Scenario: "e2e/c2s=65535/s2c=1,100/outage=12s", Budgets: bs(B(0, 1)), Split: 1},
 			{Scenario: "e2e/c2s=100/s2c=100/down=8s/noretry", Budgets: bs(B(0, 1)), Split: 1},
 			{Scenario: "e2e/c2s=100/s2c=65535,100/abandon=40000", Budgets: bs(B(1, 0)), Filter: "mailbox", Split: 1},
+			{Scenario: "e2e/c2s=100/s2c=65535/abandon=10/locks/stall=2s", Budgets: bs(B(1, 0)), Filter: "mailbox", Split: 1},
 		},
 		quickS: 300, thoroughS: 1800,
 	},
@@ -132,6 +133,10 @@ var jobTable = map[string]jobSet{
 			// every mutex operation a scheduling point (interleavings
 			// inside Close, Dial and Accept)
 			{Scenario: "sess/rounds=2/locks", Budgets: bs(B(1, 0)), Filter: "mailbox", Split: 1},
+			// one thread kept off the processor for 2 s at any point (a Close
+			// descheduled half-way while the next connection is set up and
+			// used); judged on the oracles that do not depend on timing
+			{Scenario: "sess/rounds=2/locks/stall=2s", Budgets: bs(B(1, 0)), Filter: "mailbox", Split: 1},
 		},
 		thorough: []Job{
 			{Scenario: "sess/rounds=2/intruder", Budgets: bs(B(2, 0)), Filter: "mailbox", Split: 2},
@@ -145,6 +150,8 @@ var jobTable = map[string]jobSet{
 			{Scenario: "sess/rounds=3/hold=30s/dialto=20s/closer=server", Budgets: bs(B(1, 0)), Filter: "mailbox", Split: 1},
 			{Scenario: "sess/rounds=2/locks", Budgets: bs(B(2, 0)), Filter: "mailbox", Split: 2},
 			{Scenario: "sess/rounds=2/closer=server/v=1/locks", Budgets: bs(B(1, 0)), Filter: "mailbox", Split: 1},
+			{Scenario: "sess/rounds=2/closer=server/stall=5s", Budgets: bs(B(1, 0)), Split: 1},
+			{Scenario: "sess/rounds=3/closer=server/v=1/locks/stall=2s", Budgets: bs(B(1, 0)), Filter: "mailbox", Split: 1},
 		},
 		quickS: 300, thoroughS: 1800,
 	},
